@@ -95,7 +95,8 @@ class Deep:
                 step()
             except BaseException:
                 deep.logging.exception("Failed to shutdown %s", name)
-        for plugin in self.config.plugins:
+        # a copy: a plugin that takes itself off the list in its shutdown would make us skip the one after it
+        for plugin in list(self.config.plugins):
             try:
                 plugin.shutdown()
             except BaseException:
